@@ -127,11 +127,28 @@ class BinaryOperator(Node):
     def __new__(cls, value, lhs, rhs):
         return super().__new__(cls, value, precedence[value], (lhs, rhs))
 
+    @property
+    def lhs_needs_parens(self):
+        """Whether the left operand must be parenthesized when printing."""
+        lhs = self.children[0]
+        if self.value == "**" or self.precedence == precedence["=="]:
+            # ** is right-associative; comparisons chain instead of nesting
+            return self.precedence >= lhs.precedence
+        return self.precedence > lhs.precedence
+
+    @property
+    def rhs_needs_parens(self):
+        """Whether the right operand must be parenthesized when printing."""
+        rhs = self.children[1]
+        if self.value == "**":
+            return self.precedence > rhs.precedence
+        return self.precedence >= rhs.precedence
+
     def __str__(self):
         lhs, rhs = self.children
-        if self.precedence > lhs.precedence:
+        if self.lhs_needs_parens:
             lhs = f"({lhs})"
-        if self.precedence >= rhs.precedence:
+        if self.rhs_needs_parens:
             rhs = f"({rhs})"
         return f"{lhs} {self.value} {rhs}"
 
@@ -223,14 +240,14 @@ class _LimitStrLengthVisitor:
         lhs = self.visit_node(node.lhs)
         self.max_len += 3  # return reserved characters for the second operand
         # Adjust for parenthesis due to operator precedence
-        if node.precedence > lhs.precedence:
+        if BinaryOperator(node.value, lhs, node.rhs).lhs_needs_parens:
             self.max_len -= 2
-        if node.precedence >= node.rhs.precedence:
+        if node.rhs_needs_parens:
             self.max_len -= 2
 
         rhs = self.visit_node(node.rhs)
         if self.max_len < 0:
-            if node.precedence >= node.rhs.precedence:
+            if node.rhs_needs_parens:
                 self.max_len += 2
             self.max_len += len(str(rhs)) - 3
             rhs = EllipsisLeaf()
